@@ -82,6 +82,11 @@ Section Pass.
   | reach_pc o : o ∈ pc m → reach m o
   | reach_kid p c : reach m p → c ∈ kids m p → reach m c.
 
+  (** [treach m u v]: [v] is reachable from [u] through reported edges (reflexive) *)
+  Inductive treach (m : machine) (u : id) : id → Prop :=
+  | treach_refl : treach m u u
+  | treach_step p c : treach m u p → c ∈ kids m p → treach m u c.
+
   (** The hypotheses on the start state ([ext o] = number of strong handles to [o] held outside
       the heap). *)
   Record PassPre (m : machine) (ext : id → N) : Prop := {
